@@ -29,6 +29,31 @@ AnsMap(reqs, ans) ==
     IN F[Len(ans)]
 AnsweredAt(reqs, ans, r) == AnsMap(reqs, ans)[r]
 
+\* The same for OBSERVED histories, where the moment a request enters the library's pending set is
+\* not observable: it lies between the application's call (reqs[r].n, logged before the call) and the
+\* first transmission (rtx[r].n, 0 = none yet).  A packet checked in that window may or may not find
+\* the request.  Three-valued result per request: 0 = certainly unanswered, Maybe = a packet may have
+\* answered it (nothing is demanded of it and nothing forbidden any more), otherwise the position of
+\* the packet that certainly answered it.  A packet certainly answers r when r is certainly pending
+\* (transmitted before the packet, certainly unanswered), has the longest pattern among the
+\* certainly pending candidates and no possibly pending candidate has a longer one.
+Maybe == 1073741822
+AnsState(reqs, rtx, ans) ==
+    LET F[k \in 0..Len(ans)] ==
+          IF k = 0 THEN [r \in DOMAIN reqs |-> 0]
+          ELSE LET prev == F[k - 1]
+                   a == ans[k]
+                   c == {r \in DOMAIN reqs : /\ prev[r] \in {0, Maybe} /\ reqs[r].sess = a.sess /\ reqs[r].n < a.n
+                                              /\ IsPrefix(reqs[r].pat, a.data)}
+                   sure == {r \in c : prev[r] = 0 /\ rtx[r].n # 0 /\ rtx[r].n < a.n}
+                   top == {r \in sure : \A q \in sure : Len(reqs[q].pat) <= Len(reqs[r].pat)}
+                   picks == top \cup {r \in c \ sure : \A q \in sure : Len(reqs[q].pat) < Len(reqs[r].pat)}
+               IN IF picks = {} THEN prev
+                  ELSE IF Cardinality(picks) = 1 /\ picks \subseteq sure
+                       THEN [prev EXCEPT ![CHOOSE r \in picks : TRUE] = a.n]
+                       ELSE [r \in DOMAIN reqs |-> IF r \in picks THEN Maybe ELSE prev[r]]
+    IN F[Len(ans)]
+
 NoClosedLinkTx(wire) == \A i \in DOMAIN wire : wire[i].sess # 0
 NoCrossSession(wire, reqs) == \A i \in DOMAIN wire : wire[i].sess = reqs[wire[i].req].sess
 NoRetryWhenReliable(wire, reliable) == reliable => \A i \in DOMAIN wire : wire[i].first
